@@ -114,7 +114,12 @@ pub fn record(seed: u64, nev: usize, out: &str) {
         let model = |th: &[f64], a: f64| -> f64 { match kind { "exponential" => th[0] * (th[1] * a).exp(), "logistic" => th[0] / (1.0 + (-(th[1] * a + th[2])).exp()), _ => th[0] * a } };
         let p = match kind { "exponential" => 2, "logistic" => 3, _ => 1 };
         let y: Vec<f64> = x.iter().map(|a| model(&truth, *a) + ns * noise(&mut rng)).collect();
-        let start: Vec<f64> = (0..p).map(|i| truth[i] + [1.5, -0.9, 2.0][i] * if rng.below(2) == 0 { 1.0 } else { 0.3 }).collect();
+        // poor starts: perturbed truth, or a fixed far-off point (wrong sign of the rate, wrong scale) that forces rejected steps
+        let start: Vec<f64> = match rng.below(4) {
+            0 => match kind { "exponential" => vec![5.0, -1.0], "logistic" => vec![1.0, 0.5, 0.0], _ => vec![40.0] },
+            1 => match kind { "exponential" => vec![0.1, 3.0], "logistic" => vec![10.0, -2.0, 3.0], _ => vec![-7.0] },
+            k => (0..p).map(|i| truth[i] + [1.5, -0.9, 2.0][i] * if k == 2 { 1.0 } else { 0.3 }).collect(),
+        };
         // the line fit is compared with the exact least-squares slope: run it with tight stopping tolerances
         // (the default 1e-6 legitimately stops about 2^-19 away)
         let lm = if kind == "linear-short-window" { LM::new(1e-13, 1e-13, 1e-2) } else { LM::default() };
